@@ -49,6 +49,10 @@ type RunOut struct {
 	PodErrors  int      `json:"podErrors"`
 	Writes     int64    `json:"writes"` // client write calls made during the run
 	Events     int      `json:"events"`
+	// DRA: ResourceClaims the result allocated / of those from template devices / from counter-consuming template partitions
+	DraClaims      int `json:"draClaims"`
+	DraTmpl        int `json:"draTmpl"`
+	DraTmplCounter int `json:"draTmplCounter"`
 }
 
 type SimOut struct {
@@ -183,6 +187,7 @@ func implSimulate(raw json.RawMessage) (any, error) {
 				ro.Placed += len(en.Pods)
 			}
 			ro.PodErrors = len(res.PodErrors)
+			ro.DraClaims, ro.DraTmplCounter, ro.DraTmpl = draSummary(res)
 		}
 		if cur, err = take(); err != nil {
 			return nil, err
@@ -293,7 +298,13 @@ func genWorld(r *rand.Rand, t core.Tier) (*world.Scenario, *Ext) {
 			ext.Ack = append(ext.Ack, p.Name)
 		}
 	}
-	// daemonsets that carry a required node affinity / meet PreferNoSchedule pools: the scheduler relaxes daemon pods
+	if r.Float64() < 0.15 {
+		ext.UntrackedAntiPods = 1 + r.IntN(2)
+	}
+	// dynamic resource allocation: template devices / counter budgets on the instance types, claims on pending and bound pods
+	if r.Float64() < 0.35 {
+		ext.DRA = genDra(r, s)
+	}
 	return s, ext
 }
 
@@ -368,8 +379,18 @@ func simLabels(raw json.RawMessage, impl any) []string {
 			if n, _ := rm["placed"].(json.Number); n != "" && n != "0" {
 				l = append(l, "places-on-existing")
 			}
+			if n, _ := rm["draClaims"].(json.Number); n != "" && n != "0" {
+				l = append(l, "dra:allocates-claims")
+			}
+			if n, _ := rm["draTmpl"].(json.Number); n != "" && n != "0" {
+				l = append(l, "dra:allocates-template-devices")
+			}
+			if n, _ := rm["draTmplCounter"].(json.Number); n != "" && n != "0" {
+				l = append(l, "dra:allocates-template-counter-partitions")
+			}
 		}
 	}
+	l = append(l, draLabels(in.Ext.DRA)...)
 	for _, r := range in.Runs {
 		l = append(l, "mode:"+r.Mode)
 		if r.Mark != "" {
@@ -384,6 +405,9 @@ func simLabels(raw json.RawMessage, impl any) []string {
 	}
 	if in.Ext.DefaultSpread {
 		l = append(l, "default-spread")
+	}
+	if in.Ext.UntrackedAntiPods > 0 {
+		l = append(l, "anti-affinity-pod-event-before-node-event")
 	}
 	if in.Scn.ReservedCapacity {
 		l = append(l, "reserved")
@@ -447,10 +471,20 @@ func shrinkSim(raw json.RawMessage) []any {
 			out = append(out, x)
 		}
 	}
-	if len(in.Ext.PDBs) > 0 || len(in.Ext.Volumes) > 0 || in.Ext.DefaultSpread || len(in.Ext.InvalidPods) > 0 {
+	if len(in.Ext.PDBs) > 0 || len(in.Ext.Volumes) > 0 || in.Ext.DefaultSpread || len(in.Ext.InvalidPods) > 0 || in.Ext.UntrackedAntiPods > 0 {
 		x := in
-		x.Ext = Ext{Volumes: map[string]int{}}
+		x.Ext = Ext{Volumes: map[string]int{}, DRA: in.Ext.DRA}
 		out = append(out, x)
+	}
+	if in.Ext.DRA != nil {
+		x := in
+		x.Ext.DRA = nil
+		out = append(out, x)
+		for _, sd := range shrinkDra(in.Ext.DRA) {
+			y := in
+			y.Ext.DRA = sd
+			out = append(out, y)
+		}
 	}
 	return out
 }
